@@ -1,5 +1,7 @@
 import PRV.Model.Life
 import PRV.Props.C03
+import PRV.Gen.C06
+import PRV.Gen.Wiring
 /-
 C06 — After a pool connection fails, relaying resumes once or the miner is released.
 Theorems about `Model/Life.lean` for every session state.
@@ -121,5 +123,23 @@ theorem release_closes_everything (l : Life) (kind : String) (extra : List Out) 
   intro d hd
   simp only [release, List.mem_append, List.mem_map]
   exact Or.inr ⟨d, hd, rfl⟩
+
+
+/-! ### facts about the source, regenerated on every run -/
+
+/-- every start of `Proxy.Run` stops the pipe that is left over and builds a fresh one: a relay direction that finished under
+the previous run still carries that run's destination error, and a second run that looked at it would close the healthy
+connection the scheduler has just opened and dial once more -/
+theorem source_run_renews_its_pipe : PRV.Gen.C06.runPrelude =
+    ["defer p.closeConnections()", "handler := NewHandlerMining(p)",
+     "if p.pipe != nil { <-p.pipe.StopSourceToDest(); <-p.pipe.StopDestToSource() }",
+     "p.pipe = NewPipe(p.source, p.dest, handler.sourceInterceptor, handler.destInterceptor, p.log)"] := by decide +kernel
+
+/-- "the replacement goes to the same destination": the url a session reconnects to is its own copy of the configured one, made
+inside the per-connection closure — the handshake writes the miner's worker name through it, and with one url for all sessions a
+replacement would be authorised under another miner's worker -/
+theorem source_session_owns_its_destination :
+    (PRV.Gen.Wiring.handlerLocals.find? (·.1 = "url")).map (·.2) = some "lib.CopyURL(defaultDestUrl)" ∧
+    (PRV.Gen.Wiring.handlerProxyArgs.find? (·.1 = "destURL")).map (·.2) = some "url" := by decide
 
 end PRV.Props.C06
